@@ -17,7 +17,7 @@ func (a *ComparisonPlanner) Process(ctx *shared.PlannerContext,
 	var _entries []shared.LogEntry
 	return a.WrapProcess(ctx, in, GenericPlannerOps{
 		OnEntry: func(entry *shared.LogEntry) error {
-			if a.compare(ctx, entry) {
+			if entry.Err != nil || a.compare(ctx, entry) {
 				_entries = append(_entries, *entry)
 			}
 			return nil
